@@ -166,7 +166,7 @@ func main() {
 	}
 
 	var cases []kase
-	nF := run.Pick(220, 4000)
+	nF := run.Pick(700, 5000)
 	for _, rigName := range []string{"S", "T"} {
 		for i := 0; i < nF; i++ {
 			rigName, i := rigName, i
@@ -218,8 +218,12 @@ func main() {
 
 	// progress-watchdog expiries are the refutation of "delivers all queued
 	// data"; each is re-run once in isolation before it is reported.
-	for _, s := range stalls {
+	confirmed := 0
+	for i, s := range stalls {
 		f := s.f
+		if i >= 3 && confirmed > 0 {
+			break // the refutation is confirmed; the other expiries would say the same
+		}
 		if sc, ok := s.witness.(*fscript); ok {
 			run.Add("isolation-reruns", 1)
 			var f2 *finding
@@ -235,6 +239,7 @@ func main() {
 			f = f2
 			f.stall = false
 		}
+		confirmed++
 		report(s.k, f, s.witness)
 	}
 
@@ -243,6 +248,10 @@ func main() {
 	run.Set("max_wait_observed_ms", float64(maxWaitSeen.Microseconds())/1000)
 	run.Set("max_settle_duration_ms", float64(maxTotalWait.Microseconds())/1000)
 	run.Set("max_frame_observed", maxFrame)
+	creditMu.Lock()
+	run.Set("max_unreturned_credit_observed", maxUnreturned)
+	run.Set("credit_bound", creditBound)
+	creditMu.Unlock()
 	statMu.Unlock()
 	finishEvidence()
 	run.Finish()
